@@ -452,3 +452,170 @@ OBLIGATIONS = OBLIGATIONS + [m4_read_through_getters]
 # ---- extended claim (session 4)
 LEVEL_TEXT = LEVEL_TEXT + " m4: the store's read-through getters (header, proposals, uncles, extension, cell data, cell data hash) consult their own cache under the requested key, a hit returns the cached value, a miss answers exactly like a store without caches and caches exactly the returned value under that key."
 LEVEL_NOTE = LEVEL_NOTE + ' Read-through getters: one call per getter, cache and database as environment.'
+
+
+def m5_pool_cache_keys(S):
+    """the pool side of the verification cache (tx-pool/src/process.rs, coroutine bodies): `fetch_tx_verify_cache(tx)` looks the cache up under the WITNESS hash of that very
+    transaction and returns a copy of the entry; the update task spawned by `_process_tx` stores the verified result under the witness hash captured at the beginning of the
+    processing of that transaction, and `_process_tx` spawns it only after a cache miss and a successful submission, capturing witness_hash(tx) and the result verify_rtx returned"""
+    from mir2smt.exec import CoroV
+    ob = "C14.m5"
+    def coro(rx):
+        c = [f for f in S.prog.funcs if f.kind == "fn" and re.search(rx, f.name) and len(f.params) == 2 and "Context" in f.params[1][1]]
+        if len(c) != 1:
+            raise Inconclusive(f"coroutine {rx}: {len(c)} candidates")
+        f = c[0]
+        ix = {}
+        for name, place in f.debug.items():
+            m_ = re.match(r"\(\(\*\(_1\.0: .*?\)\)\.(\d+): ", place)
+            if m_:
+                ix[name] = int(m_.group(1))
+        return f, ix
+
+    def nmv(ex, v):
+        v = deref(ex, v) if ex is not None else v
+        if isinstance(v, AggV):
+            return "(" + ",".join(nmv(ex, x) for x in v.fields) + ")"
+        return getattr(v, "name", None) or type(v).__name__
+    base_env = lambda log: list(E.LOGGING_OFF) + [
+        (E.rx(r"<Arc<.*RwLock<.*LruCache<.*>>> as Deref>::deref$"), lambda ex, c, a, d: ex.ctx.ref_to(OpaqueV("lock_of(" + nmv(ex, a[0]) + ")", "RwLock"))),
+        (E.rx(r"RwLock::<.*LruCache<.*>>::(read|write)$"), lambda ex, c, a, d: OpaqueV(c.split("::")[-1] + "_future(" + nmv(ex, a[0]) + ")", d)),
+        (E.rx(r" as IntoFuture>::into_future$|Pin::<.*>::new_unchecked$"), lambda ex, c, a, d: a[0]),
+        (E.rx(r" as Future>::poll$"), lambda ex, c, a, d: EnumV(0, ((0, (OpaqueV("guard(" + nmv(ex, a[0]) + ")", "Guard"),)),), d)),
+        (E.rx(r"RwLock(Read|Write)Guard<'_, .*> as Deref(Mut)?>::deref(_mut)?$"), lambda ex, c, a, d: ex.ctx.ref_to(OpaqueV("cache_behind(" + nmv(ex, a[0]) + ")", "LruCache"))),
+        (E.rx(r"TransactionView::witness_hash$"), lambda ex, c, a, d: OpaqueV("witness_hash(" + nmv(ex, a[0]) + ")", d)),
+        (E.rx(r"TransactionView::hash$"), lambda ex, c, a, d: OpaqueV("hash(" + nmv(ex, a[0]) + ")", d)),
+        (E.rx(r"LruCache::<.*>::peek::<"), lambda ex, c, a, d: (log.append(("peek", nmv(ex, a[0]), nmv(ex, a[1]))), mk_option(ex.ctx.bool("cache_hit").t, ex.ctx.ref_to(OpaqueV("cached_entry", "Completed")), d))[1]),
+        (E.rx(r"LruCache::<.*>::put$"), lambda ex, c, a, d: (log.append(("put", nmv(ex, a[0]), nmv(ex, a[1]), nmv(ex, a[2]))), mk_option(False, None, d))[1]),
+        (E.rx(r"Option::<&.*Completed>::cloned$"), lambda ex, c, a, d: (lambda o: mk_option(o.disc if isinstance(o.disc, int) else T.eq(o.disc, 1), OpaqueV(nmv(ex, o.payload(1)[0]), "Completed"), d) if not isinstance(o.disc, int) else (mk_option(True, OpaqueV(nmv(ex, o.payload(1)[0]), "Completed"), d) if o.disc == 1 else mk_option(False, None, d)))(a[0])),
+    ]
+    # ---- fetch
+    f, ix = coro(r"process::<impl at [^>]*>::fetch_tx_verify_cache::\{closure#0\}$")
+    ctx = S.ctx()
+    ctx.uninterpreted_unknown_calls = True
+    log = []
+    ctx.env = base_env(log)
+    ups = {ix["self"]: ctx.ref_to(OpaqueV("service", "TxPoolService")), ix["tx"]: ctx.ref_to(OpaqueV("tx", "TransactionView"))}
+    ps = S.run(ctx, f, [AggV((ctx.ref_to(CoroV(0, tuple(sorted(ups.items())), (), "coroutine")),), "Pin"), ctx.ref_to(OpaqueV("task_context", "Context"))])
+    S.prove(ctx, ob, "fetch_completes_without_panicking", [], T.not_(cond_of(panics(ps))))
+    S.prove(ctx, ob, "fetch_looks_up_the_witness_hash_of_that_transaction", [], bool({(k_) for t, _, k_ in log if t == "peek"} == {"witness_hash(tx)"}), extra={"note": str(log)})
+    vals = set()
+    for p in returns(ps):
+        v = p.value.payload(0)[0] if isinstance(p.value, EnumV) and p.value.disc == 0 else None
+        if isinstance(v, EnumV):
+            vals.add(nmv(None, v.payload(1)[0]) if (v.payloads and (v.disc == 1 or not isinstance(v.disc, int))) else "None")
+    S.prove(ctx, ob, "fetch_returns_a_copy_of_the_cached_entry_or_nothing", [], bool(vals and vals <= {"cached_entry", "None"} and "cached_entry" in vals), extra={"note": str(vals)})
+    # ---- the spawned update task
+    f, ix = coro(r"process::<impl at [^>]*>::_process_tx::\{closure#0\}::\{closure#\d+\}$")
+    if not all(k in ix for k in ("txs_verify_cache", "wtx_hash", "verified")):
+        raise Inconclusive(f"update task upvars: {ix}")
+    ctx = S.ctx()
+    ctx.uninterpreted_unknown_calls = True
+    log = []
+    ctx.env = base_env(log)
+    ups = {ix["txs_verify_cache"]: OpaqueV("shared_cache_handle", "Arc<RwLock<LruCache>>"), ix["wtx_hash"]: OpaqueV("captured_wtx_hash", "Byte32"), ix["verified"]: OpaqueV("captured_verified", "Completed")}
+    ps = S.run(ctx, f, [AggV((ctx.ref_to(CoroV(0, tuple(sorted(ups.items())), (), "coroutine")),), "Pin"), ctx.ref_to(OpaqueV("task_context", "Context"))])
+    S.prove(ctx, ob, "update_task_completes_without_panicking", [], T.not_(cond_of(panics(ps))))
+    puts = {(k_, v_) for t, _, k_, v_ in log if t == "put"}
+    S.prove(ctx, ob, "update_task_stores_the_captured_result_under_the_captured_witness_hash", [], bool(puts == {("captured_wtx_hash", "captured_verified")}), extra={"note": str(log)})
+    S.prove(ctx, ob, "update_task_writes_the_shared_cache", [], bool(all("shared_cache_handle" in c_ for t, c_, *_ in log if t == "put") and any(t == "put" for t, *_ in log)), extra={"note": str(log)})
+
+
+OBLIGATIONS = OBLIGATIONS + [m5_pool_cache_keys]
+
+
+def _svc_field(name):
+    from mir2smt.srcinfo import field_index
+    return field_index("tx-pool/src/service.rs", "TxPoolService")[name]
+
+
+def m5b_process_tx_spawns_the_update(S):
+    """`_process_tx` (coroutine body executed): the cache-update task is spawned iff the lookup was a miss, verification succeeded (and matched the declared cycles) and the
+    submission into the pool succeeded; it captures the witness hash of the processed transaction and the result `verify_rtx` returned; the lookup handed to `verify_rtx` is the
+    one `fetch_tx_verify_cache` answered for this transaction"""
+    from mir2smt.exec import CoroV
+    ob = "C14.m5"
+    c = [f for f in S.prog.funcs if f.kind == "fn" and re.search(r"process::<impl at [^>]*>::_process_tx::\{closure#0\}$", f.name) and len(f.params) == 2 and "Context" in f.params[1][1]]
+    if len(c) != 1:
+        raise Inconclusive(f"_process_tx coroutine: {len(c)} candidates")
+    f = c[0]
+    ix = {}
+    for name, place in f.debug.items():
+        m_ = re.match(r"\(\(\*\(_1\.0: .*?\)\)\.(\d+): ", place)
+        if m_:
+            ix[name] = int(m_.group(1))
+    need = ["self", "tx", "declared_cycles", "command_rx"]
+    if any(n not in ix for n in need):
+        raise Inconclusive(f"_process_tx upvars: {ix}")
+    ctx = S.ctx()
+    ctx.uninterpreted_unknown_calls = True
+    ctx.max_paths = 2000
+    pre_ok, hit, ver_ok, sub_ok, declared = ctx.bool("pre_check_ok"), ctx.bool("cache_hit"), ctx.bool("verification_ok"), ctx.bool("submission_ok"), ctx.bool("cycles_declared")
+    dcy, vcy = ctx.int("declared_cycles", "u64"), ctx.int("verified_cycles", "u64")
+    spawned, verify_args = [], []
+
+    def nmv(ex, v):
+        v = deref(ex, v) if ex is not None else v
+        if isinstance(v, AggV) and not (isinstance(v.ty, str) and v.ty.startswith("{")):
+            return "(" + ",".join(nmv(ex, x) for x in v.fields) + ")"
+        if isinstance(v, EnumV) and isinstance(v.disc, int):
+            return ("Some(" + nmv(ex, v.payload(1)[0]) + ")") if v.disc == 1 else "None"
+        if isinstance(v, EnumV):
+            return "Option?(" + nmv(ex, v.payloads[0][1][0]) + ")" if v.payloads else "Option?"
+        if isinstance(v, IntV):
+            return v.t[2] if isinstance(v.t, tuple) and v.t[0] == "var" else str(v.t)
+        return getattr(v, "name", None) or type(v).__name__
+    verified = AggV((vcy, AggV((ctx.int("verified_fee", "u64"),), "Capacity")), "Completed")
+
+    def poll(ex, c_, a, d):
+        fut = nmv(ex, a[0])
+        if "pre_check" in fut:
+            ok = AggV((OpaqueV("tip_hash", "Byte32"), OpaqueV("rtx", "Arc<ResolvedTransaction>"), OpaqueV("status", "TxStatus"), AggV((ex.ctx.int("fee", "u64"),), "Capacity"), ex.ctx.int("tx_size", "usize")), "(..)")
+            v = AggV((mk_result(pre_ok.t, ok, OpaqueV("pre_reject", "Reject"), "Result"), OpaqueV("snapshot", "Arc<Snapshot>")), "(Result, Arc<Snapshot>)")
+        elif "fetch_cache" in fut:
+            v = mk_option(hit.t, OpaqueV("cached_entry", "Completed"), "Option<Completed>")
+        elif "verify_rtx" in fut:
+            v = mk_result(ver_ok.t, verified, OpaqueV("verify_reject", "Reject"), "Result<Completed, Reject>")
+        elif "submit" in fut:
+            v = AggV((mk_result(sub_ok.t, UNIT, OpaqueV("submit_reject", "Reject"), "Result"), OpaqueV("submit_snapshot", "Arc<Snapshot>")), "(Result, Arc<Snapshot>)")
+        else:
+            v = UNIT
+        return EnumV(0, ((0, (v,)),), d)
+
+    def spawn(ex, c_, a, d):
+        co = deref(ex, a[0]) if isinstance(a[0], RefV) else a[0]
+        fields = [nmv(ex, x) for x in (co.fields if isinstance(co, AggV) else ())]
+        spawned.append((fields, list(ex.pc)))
+        return OpaqueV("join_handle", d)
+    ctx.env = list(E.LOGGING_OFF) + [
+        (E.rx(r"TransactionView::witness_hash$"), lambda ex, c_, a, d: OpaqueV("witness_hash(" + nmv(ex, a[0]) + ")", d)),
+        (E.rx(r"TransactionView::hash$"), lambda ex, c_, a, d: OpaqueV("hash(" + nmv(ex, a[0]) + ")", d)),
+        (E.rx(r"Instant::now$|Instant::elapsed$|Duration::as_secs_f64$"), E.opaque_call()),
+        (E.rx(r"TxPoolService>::pre_check$"), lambda ex, c_, a, d: OpaqueV("pre_check_future", d)),
+        (E.rx(r"TxPoolService>::fetch_tx_verify_cache$"), lambda ex, c_, a, d: OpaqueV("fetch_cache_future(" + nmv(ex, a[1]) + ")", d)),
+        (E.rx(r"(^|::)verify_rtx$"), lambda ex, c_, a, d: (verify_args.append([nmv(ex, x) for x in a]), OpaqueV("verify_rtx_future", d))[1]),
+        (E.rx(r"TxPoolService>::submit_entry$"), lambda ex, c_, a, d: OpaqueV("submit_future", d)),
+        (E.rx(r"TxPoolService>::notify_block_assembler$"), lambda ex, c_, a, d: OpaqueV("notify_future", d)),
+        (E.rx(r" as IntoFuture>::into_future$|Pin::<.*>::new_unchecked$"), lambda ex, c_, a, d: a[0]),
+        (E.rx(r" as Future>::poll$"), poll),
+        (E.rx(r"tokio::spawn::<"), spawn),
+        (E.rx(r"Consensus::max_block_cycles$"), lambda ex, c_, a, d: ex.ctx.int("max_block_cycles", "u64")),
+        (E.rx(r"<Arc<.*> as Deref>::deref$"), lambda ex, c_, a, d: ex.ctx.ref_to(OpaqueV(nmv(ex, a[0]), "?"))),
+        (E.rx(r"<Arc<.*> as Clone>::clone$"), lambda ex, c_, a, d: OpaqueV(nmv(ex, a[0]), d)),
+        (E.rx(r"Arc::<.*>::new$"), lambda ex, c_, a, d: OpaqueV("arc(" + nmv(ex, a[0]) + ")", d)),
+        (E.rx(r"Snapshot::tip_header$|TxStatus::with_env$|TxEntry::new$|Reject as (std::convert::)?From<.*>>::from$"), E.opaque_call()),
+    ]
+    ups = {ix["self"]: ctx.ref_to(OpaqueV("service", "TxPoolService")), ix["tx"]: OpaqueV("tx", "TransactionView"),
+           ix["declared_cycles"]: mk_option(declared.t, dcy, "Option<u64>"), ix["command_rx"]: mk_option(False, None, "Option<&mut Receiver>")}
+    ps = S.run(ctx, f, [AggV((ctx.ref_to(CoroV(0, tuple(sorted(ups.items())), (), "coroutine")),), "Pin"), ctx.ref_to(OpaqueV("task_context", "Context"))])
+    S.prove(ctx, ob, "process_tx_completes_without_panicking_or_suspending", [], T.and_(T.not_(cond_of(panics(ps))), bool(all(isinstance(p.value, EnumV) and p.value.disc == 0 for p in returns(ps)))))
+    when = T.or_(*[T.and_(*pc) for _, pc in spawned]) if spawned else False
+    cyc_ok = T.or_(T.not_(declared.t), T.eq(dcy.t, vcy.t))
+    S.prove(ctx, ob, "update_task_is_spawned_iff_miss_and_verified_and_submitted", [], T.iff(when, T.and_(pre_ok.t, T.not_(hit.t), ver_ok.t, cyc_ok, sub_ok.t)))
+    caps = {tuple(fl) for fl, _ in spawned}
+    S.prove(ctx, ob, "update_task_captures_the_witness_hash_of_this_transaction_and_the_verification_result", [],
+            bool(caps and all(len(fl) == 3 and fl[0] == "service.%d" % _svc_field("txs_verify_cache") and fl[1] == "witness_hash(tx)" and fl[2] == "(verified_cycles,(verified_fee))" for fl in caps)), extra={"note": str(caps)[:400]})
+    S.prove(ctx, ob, "verification_gets_the_cache_answer_for_this_transaction", [], bool(verify_args and all(any("cached_entry" in x for x in va) for va in verify_args)), extra={"note": str(verify_args[:2])[:500]})
+
+
+OBLIGATIONS = OBLIGATIONS + [m5b_process_tx_spawns_the_update]
